@@ -10,6 +10,7 @@ import (
 	"sync"
 	"sync/atomic"
 	"testing"
+	"testing/fstest"
 
 	"github.com/ichiban/prolog"
 	"pgregory.net/rapid"
@@ -140,6 +141,24 @@ func workload(p *gen.Program, salt string, k int, big bool) result {
 	if e := i.Exec(":- set_prolog_flag(double_quotes, chars), set_prolog_flag(unknown, error).\n", 100000); e != nil {
 		r.err = fmt.Errorf("interpreter %d: %s", k, e)
 		return r
+	}
+	// '$VAR'(N) terms written under numbervars(true), with numbers that differ between the interpreters
+	for rep := 0; rep < 10; rep++ {
+		a, b, c := k*7+rep, 26+k, 1000+k*13+rep
+		before := len(i.Out.String())
+		rr := i.Query(fmt.Sprintf("write_term(f('$VAR'(%d), '$VAR'(%d), g('$VAR'(%d))), [numbervars(true)]), write('$VAR'(%d)).", a, b, c, a), nil, 2, 200000)
+		nv := func(n int) string {
+			s := string(rune('A' + n%26))
+			if n >= 26 {
+				s += fmt.Sprint(n / 26)
+			}
+			return s
+		}
+		want := fmt.Sprintf("f(%s,%s,g(%s))%s", nv(a), nv(b), nv(c), nv(a))
+		if got := i.Out.String()[before:]; rr.Err != nil || len(rr.Answers) != 1 || got != want {
+			r.err = fmt.Errorf("interpreter %d wrote %q for f('$VAR'(%d),'$VAR'(%d),g('$VAR'(%d))) and '$VAR'(%d) under numbervars(true), expected %q (err %v)", k, got, a, b, c, a, want, rr.Err)
+			return r
+		}
 	}
 	// a long text (beyond any fixed-size buffer of the reader) full of atoms that the other interpreters create at
 	// the same time; afterwards every one of them still has its own text
@@ -393,7 +412,46 @@ func sortStrings(s []string) {
 	}
 }
 
+// checkFS: what consult/1 loads depends on the interpreter's own file system only. Interpreter A (whose file system
+// holds only name.pl) loads `name`; then interpreter B, whose file system holds both `name` and `name.pl` with
+// different contents, loads `name`: it must get what it gets when no other interpreter has ever loaded that name
+// (observed on a second, equally built pair of file systems under another name).
+func checkFS() error {
+	load := func(fsys fstest.MapFS, name string) (string, error) {
+		i := sut.New()
+		i.P.FS = fsys
+		res := i.Query(fmt.Sprintf("consult(%s), v(X).", name), []string{"X"}, 2, 500000)
+		if res.Err != nil || len(res.Answers) != 1 {
+			return "", fmt.Errorf("consult(%s), v(X): %d answers, err %v", name, len(res.Answers), res.Err)
+		}
+		return res.Answers[0][0].String(), nil
+	}
+	both := func(name string) fstest.MapFS {
+		return fstest.MapFS{name: {Data: []byte("v(exact_name).\n")}, name + ".pl": {Data: []byte("v(with_extension).\n")}}
+	}
+	salt := fmt.Sprintf("%d_%d", os.Getpid(), saltCounter.Add(1))
+	control, shared := "lib_control_"+salt, "lib_shared_"+salt
+	alone, err := load(both(control), control)
+	if err != nil {
+		return fmt.Errorf("infrastructure: %v", err)
+	}
+	if _, err := load(fstest.MapFS{shared + ".pl": {Data: []byte("v(with_extension).\n")}}, shared); err != nil {
+		return fmt.Errorf("infrastructure: %v", err)
+	}
+	after, err := load(both(shared), shared)
+	if err != nil {
+		return err
+	}
+	if after != alone {
+		return fmt.Errorf("an interpreter whose file system holds both NAME and NAME.pl loads %s by consult(NAME) when no other interpreter has loaded that name, but %s after another interpreter (with its own file system) has", alone, after)
+	}
+	return nil
+}
+
 func check(c Case) (int, error) {
+	if c.Kind == "fs" {
+		return 0, checkFS()
+	}
 	if c.Kind == "isolation" {
 		return 0, checkIsolation(c)
 	}
@@ -425,6 +483,14 @@ func TestProp(t *testing.T) {
 			}
 		}
 		r.LabelN("isolation_pairs", len(pairs))
+		for k := 0; k < 3; k++ {
+			c := Case{Kind: "fs"}
+			r.Eval(1)
+			if err := checkFS(); err != nil {
+				r.Fail(t, "c14", c, err)
+			}
+		}
+		r.LabelN("file_system_independence_checks", 3)
 	}
 	r.Rapid(t, "rounds", r.Pick(240, 8000), func(t *rapid.T) {
 		c := Case{Kind: "round", N: rapid.IntRange(2, 8).Draw(t, "n")}
